@@ -174,6 +174,12 @@ func runC05Sys(t *testing.T, sc *C05SysScenario) *Outcome {
 			o.Harness = err.Error()
 			return o
 		}
+		// let the accessory finish whatever is still in flight or parked (it may only now get to the altered frame)
+		s.Extra = nil
+		if err := s.Run(nil); err != nil {
+			o.Harness = err.Error()
+			return o
+		}
 		// oracle: the callbacks are 1, 2, ..., j with j <= the number of requests that arrived unaltered
 		limit := len(sc.Reqs)
 		if altered {
